@@ -140,4 +140,10 @@ def deleteRow (K : List (List Nat)) (r : Nat) : Except PyErr (List (List Nat)) :
 def deleteCol (K : List (List Nat)) (r : Nat) : Except PyErr (List (List Nat)) :=
   if r < ncols K then .ok (K.map fun row => row.eraseIdx r) else .error PyErr.indexError
 
+/-- `np.max(D)` of a 2-D array of non-negative integers: `ValueError` for an array without entries -/
+def npMax (D : List (List Nat)) : Except PyErr Nat :=
+  match D.flatten with
+  | [] => .error PyErr.valueError
+  | x :: xs => .ok (xs.foldl max x)
+
 end PersimVerif.SrcNp
